@@ -136,23 +136,42 @@ def r13_2(cx):
             _b, why0 = _is_match_shape(cx)
             cx.report('R13.2', b, twin, why0 is None, '= try_find(input.earliest(true)) + panicking unwrap + is_some' if why0 is None else why0)
             continue
-        t = expand_vars(b, b.def_term(0) or b.local_term(0))
-        if name == 'is_match' and is_call(t, r'Option::is_some$'):
-            t = expand_vars(b, peel(t[2][0]))
-        ok = False
-        why = 'return value is %s' % tstr(t, 300)
-        if is_call(t, r'core::result::Result::(expect|unwrap)$'):
-            inner = expand_vars(b, peel(t[2][0]))
-            if is_call(inner, r'^ahocorasick::AhoCorasick::%s$' % twin) and is_var(peel(inner[2][0]), 'self'):
-                got = [peel_all(expand_vars(b, a)) for a in inner[2][1:]]
-                params = [('v', b.locals[i]['names'][0] if b.locals[i]['names'] else '_%d' % i, i) for i in range(2, b.j['arg_count'] + 1)]
-                if name == 'is_match':
-                    ok = (len(got) == 1 and is_call(got[0], r'Input::earliest$') and peel_all(expand_vars(b, got[0][2][0])) == params[0]
-                          and got[0][2][1] == ('c', 1))
-                else:
-                    ok = got == params
-                if not ok:
-                    why = 'arguments are not passed through unchanged: %s' % tstr(inner, 300)
+        # decided on the path summaries: every path calls the twin exactly once with the same arguments; the Ok outcome returns
+        # the payload, the Err outcome panics (no path swallows the error or substitutes a value)
+        from acverif.sym import summarize, canon, cstr
+        from acverif.rl import param_at
+        rows = summarize(cx.facts, b)
+        params = [cstr(param_at(b, i)) for i in range(1, b.j['arg_count'] + 1)]
+        why = None
+        nok = 0
+        for r in rows:
+            tw = [canon(c) for c in r.calls(r'^ahocorasick::AhoCorasick::%s$' % twin)]
+            if len(tw) != 1:
+                why = why or 'a path calls %s %d times' % (twin, len(tw))
+                continue
+            if [cstr(a) for a in tw[0][2]] != params:
+                why = why or 'arguments are not passed through unchanged: %s' % tstr(tw[0], 200)
+                continue
+            out = None
+            for c, v in r.conds:
+                cc = canon(c)
+                if cc[0] == 'discr' and cstr(cc[1]) == cstr(tw[0]):
+                    out = 'ok' if (v == 0 or (isinstance(v, tuple) and v[0] == 'not' and 1 in v[1])) else 'err'
+            if r.end == 'diverge':
+                if out == 'ok':
+                    why = why or 'a successful search panics'
+                continue
+            if out != 'ok':
+                why = why or 'a path returns although %s failed (the error is swallowed)' % twin
+                continue
+            nok += 1
+            ret = canon(r.ret) if r.ret is not None else None
+            pay = cstr(('f', ('dc', tw[0], 'Ok'), '0'))
+            if ret is not None and cstr(ret) not in (pay, '()') and not (ret[0] == 'c' and ret[1] is None) and not (ret[0] == 'agg' and ret[1] == 'tuple' and not ret[3]):
+                why = why or 'the value returned is %s, not the payload of %s' % (tstr(ret, 120), twin)
+        if nok == 0:
+            why = why or 'no path returns the result of %s' % twin
+        ok = why is None
         cx.report('R13.2', b, twin, ok, ('= %s(same args) + panicking unwrap' % twin) if ok else why)
     cx.floor('R13.2', 'infallible search methods with a try_ twin', n, 10 if cx.config in ('default', 'std', 'logging') else 9)
 
